@@ -134,7 +134,10 @@ PixelItemValue ==
      THEN Fail /\ UNCHANGED <<pos, cons, inSeq, pend, delims, last, otNext>>
      ELSE /\ Advance(Top.len)
           /\ pend' = TRUE /\ otNext' = FALSE
-          /\ Emit(Tok(IF otNext /\ mode = "eager" THEN "OT" ELSE "IV", NoTag, "", Top.len, pos + Top.len))
+          /\ LET b == SubSeq(bytes, At, cons + Top.len) IN
+             Emit(IF otNext /\ mode = "eager"
+                  THEN TokV("OT", Top.len, pos + Top.len, OTEntries(ts, b), Top.len % 4 = 0)
+                  ELSE TokV("IV", Top.len, pos + Top.len, b, TRUE))
           /\ UNCHANGED <<inSeq, delims, last, status>>
   /\ Same
 
@@ -172,7 +175,8 @@ ReadValue ==
   /\ IF Rem < last.len
      THEN Fail /\ UNCHANGED <<pos, cons, inSeq, pend, delims, otNext>>
      ELSE /\ Advance(last.len) /\ pend' = TRUE
-          /\ Emit(Tok("PV", NoTag, "", last.len, pos + last.len))
+          /\ Emit(TokV("PV", last.len, pos + last.len, SubSeq(bytes, At, cons + last.len),
+                       last.len % Width(last.vr) = 0))
           /\ UNCHANGED <<inSeq, delims, otNext, status>>
   /\ Same
 
